@@ -22,6 +22,7 @@ ASSUMPTIONS = [
     "Grothendieck constant bounded by Krivine's pi / (2 ln(1 + sqrt 2))",
 ]
 TOL = 2e-4
+SOLVER_TIME_LIMIT = 180
 TOLB = 5e-4
 KG = np.pi / (2 * np.log(1 + np.sqrt(2)))
 
